@@ -169,20 +169,20 @@ Lemma sweeping_meta_pres : forall m, meta_pres (Sweeping m).
 Proof. intros m s d r. simpl. auto. Qed.
 
 (* ---------------------------------------------------------------------------------------------- *)
-(* Random(seed) *)
-Lemma rd_recover_spec : forall h s,
-  rd_np (rd_recover s h) = rd_np s + length h /\
-  rd_nf (rd_recover s h) = rd_nf s + nrew h /\
-  rd_k (rd_recover s h) = rd_k s + length h.
+(* Random(seed) and Random() *)
+Lemma rd_recover_spec : forall sd h s,
+  rd_np (rd_recover sd s h) = rd_np s + length h /\
+  rd_nf (rd_recover sd s h) = rd_nf s + nrew h /\
+  rd_k (rd_recover sd s h) = rd_k s + (if sd then length h else 0).
 Proof.
   unfold rd_recover.
   induction h using rev_ind; intros; simpl.
-  - repeat split; lia.
+  - repeat split; destruct sd; lia.
   - rewrite fold_left_app. simpl. destruct (IHh s) as (A & B & C).
-    rewrite app_length, nrew_app. simpl. rewrite A, B, C. repeat split; lia.
+    rewrite app_length, nrew_app. simpl. rewrite A, B, C. repeat split; destruct sd; lia.
 Qed.
 
-Lemma rd_reach_spec : forall draw P s h, Reach (RandomSeeded draw) P s h ->
+Lemma rd_reach_spec : forall sd draw P s h, Reach (RandomGen sd draw) P s h ->
   rd_np s = length h /\ rd_nf s = nrew h /\ rd_k s = length h.
 Proof.
   induction 1.
@@ -194,26 +194,26 @@ Proof.
     repeat split; lia.
 Qed.
 
-Lemma random_obs_rec : forall draw, obs_rec (RandomSeeded draw) anyfed HRw.
+Lemma random_obs_rec : forall sd draw, obs_rec (RandomGen sd draw) anyfed HRw.
 Proof.
-  intros draw s h HR h' Hh. simpl.
-  destruct (rd_recover_spec h' (mkRd 0 0 0)) as (A & B & _).
-  destruct (rd_reach_spec _ _ _ _ HR) as (C & D & _).
+  intros sd draw s h HR h' Hh. simpl.
+  destruct (rd_recover_spec sd h' (mkRd 0 0 0)) as (A & B & _).
+  destruct (rd_reach_spec _ _ _ _ _ HR) as (C & D & _).
   rewrite A, B, C, D. simpl. rewrite (HRw_length _ _ Hh), (HRw_nrew _ _ Hh). reflexivity.
 Qed.
 
 Definition rd_beq (s1 s2 : rd_st) : Prop := rd_k s1 = rd_k s2.
 
-Lemma random_bisim : forall draw, bisim (RandomSeeded draw) rd_beq.
-Proof. intros draw s1 s2 H. unfold rd_beq in *. simpl. unfold rd_propose. rewrite H. simpl. auto. Qed.
+Lemma random_bisim : forall sd draw, bisim (RandomGen sd draw) rd_beq.
+Proof. intros sd draw s1 s2 H. unfold rd_beq in *. simpl. unfold rd_propose. rewrite H. simpl. auto. Qed.
 
 Lemma random_cont_rec : forall draw, cont_rec (RandomSeeded draw) samefed HRlen rd_beq.
 Proof.
   intros draw s h HR h' [Hl _]. unfold rd_beq. simpl.
-  destruct (rd_recover_spec h' (mkRd 0 0 0)) as (_ & _ & C).
-  destruct (rd_reach_spec _ _ _ _ HR) as (_ & _ & D).
+  destruct (rd_recover_spec true h' (mkRd 0 0 0)) as (_ & _ & C).
+  destruct (rd_reach_spec _ _ _ _ _ HR) as (_ & _ & D).
   rewrite C, D. simpl. lia.
 Qed.
 
-Lemma random_meta_pres : forall draw, meta_pres (RandomSeeded draw).
-Proof. intros draw s d r. simpl. auto. Qed.
+Lemma random_meta_pres : forall sd draw, meta_pres (RandomGen sd draw).
+Proof. intros sd draw s d r. simpl. auto. Qed.
